@@ -146,7 +146,7 @@ def c12(tier, seed):
     try:
         all_taus = '{"None", "bool", "int", "float", "str", "bytes", "list", "dict", "tuple0", "tuple3", "tuple2s", "tuple2b"}'
         if tier == 'quick':
-            plan = [('bfs', 1, False, ['A']), ('sim', 'num=3', 4, False, ['E'])]
+            plan = [('bfs', 1, False, ['A']), ('sim', 'num=2', 3, False, ['E'])]
             mc = (0, False)
             taus = '{"None", "int", "float", "str", "bytes", "list", "dict", "tuple2b"}'
         else:
